@@ -375,6 +375,12 @@ func PoolB() *Pool {
 	add("e2(X) :- n(X), Y = fn:plus(X, 1), n(Y).")
 	add("e2(X) :- n(X), Y = fn:minus(X, 1), !n(Y).")
 	add("e3(X,Z) :- k(X,Y), W = fn:plus(Y, 1), k(W,Z).")
+	// a variable unified with another variable before anything binds either, read only by a let-transform
+	add("ls(Z) :- W = X, n(X) |> let Z = fn:plus(W, 2).")
+	add("ls(Z) :- W = X, V = W, n(X) |> let Z = fn:plus(V, 2).")
+	add("ls(Z) :- W = X, k(X,Y), V = Y |> let Z = fn:pair(W, V).")
+	add("ls(Z) :- n(X), W = X |> let Z = fn:plus(W, 2).")
+	add("ls(Z) :- ls(X), W = X, n(X) |> let Z = fn:plus(W, 1).")
 	add("g(Y) :- n(X), Y = fn:plus(X, 1), Y < 4.")
 	add("g(Y) :- g(X), Y = fn:plus(X, 1), Y < 6.")
 	add("g(Y) :- g(X), n(X) |> let Y = fn:mult(X, 2).")
